@@ -292,6 +292,116 @@ async fn c13_history(server: &Server, channel: &Channel, hist: &[u8], out: &mut 
     }
 }
 
+/// A service whose removal takes a while: dropping it (which the server does while it updates its
+/// handler table) sleeps.
+pub struct SlowToDrop(pub u64);
+
+impl Drop for SlowToDrop {
+    fn drop(&mut self) {
+        std::thread::sleep(Duration::from_micros(self.0));
+    }
+}
+
+impl RpcService for SlowToDrop {
+    fn register_handlers(r: &mut ServiceRegistry<Self>) {
+        r.add_handler::<M2>();
+    }
+}
+
+#[async_trait]
+impl Handler<M2> for SlowToDrop {
+    type Reply = u32;
+    async fn on_message(&self, m: Request<M2>) -> Result<u32, Status> {
+        Ok(20 * 1_000_000 + m.0.value())
+    }
+}
+
+/// Requests for a service that stays registered, issued WHILE other services are added and removed
+/// on other threads: none of them may be refused (removing / adding one service never disables another).
+async fn c13_concurrent(seed: u64, round: u64, tcp: bool) -> CaseOut {
+    let mut out = CaseOut::default();
+    let mut rng = rng_for(seed, 0xC13_C0, round);
+    let (addr, server) = if tcp {
+        let addr = free_tcp_addr();
+        match Server::listen(addr).await {
+            Ok(s) => (addr, s),
+            Err(e) => {
+                out.inconclusive = Some(format!("cannot listen on loopback: {e}"));
+                return out;
+            },
+        }
+    } else {
+        let addr = SocketAddr::from(([10, 113, (round >> 8) as u8, round as u8], 7000));
+        (addr, Server::verif_in_memory(addr))
+    };
+    server.add_service(SvcA);
+    let server = Arc::new(server);
+    let stop = Arc::new(std::sync::atomic::AtomicBool::new(false));
+    let churn = {
+        let (server, stop) = (server.clone(), stop.clone());
+        let (n, slow) = (rng.gen_range(20..120), rng.gen_range(50..3_000u64));
+        tokio::task::spawn_blocking(move || {
+            let mut k = 0u64;
+            for _ in 0..n {
+                server.add_service(SlowToDrop(slow));
+                server.add_service(SvcD);
+                server.remove_service(SlowToDrop::service_name());
+                server.remove_service(SvcD::service_name());
+                k += 4;
+            }
+            stop.store(true, Ordering::SeqCst);
+            k
+        })
+    };
+    let mut clients = Vec::new();
+    for c in 0..3u32 {
+        let stop = stop.clone();
+        let client = RpcClient::<SvcA>::new(Channel::connect(addr));
+        clients.push(tokio::spawn(async move {
+            let (mut sent, mut refused) = (0u64, Vec::new());
+            let mut nonce = c * 1_000_000;
+            while !stop.load(Ordering::SeqCst) && sent < 20_000 {
+                nonce += 1;
+                sent += 1;
+                match client.send(&M1(nonce)).await {
+                    Ok(v) if v.value() == 1_000_000 + nonce => {},
+                    Ok(v) => refused.push(format!("wrong reply {}", v.value())),
+                    Err(e) => refused.push(format!("{:?}: {}", e.code, e.message)),
+                }
+                if refused.len() > 3 {
+                    break;
+                }
+            }
+            (sent, refused)
+        }));
+    }
+    let changes = churn.await.unwrap_or(0);
+    let mut total = 0;
+    for c in clients {
+        if let Ok((sent, refused)) = c.await {
+            total += sent;
+            if !refused.is_empty() {
+                out.violate(
+                    "C13:registered-service-refused:while-another-service-was-being-added-or-removed",
+                    json!({"transport": if tcp { "tcp" } else { "in-memory" }, "requests_sent_by_this_client": sent, "first_failures": refused, "registry_changes_meanwhile": changes}),
+                );
+            }
+        }
+    }
+    out.count("requests_during_registry_changes", total);
+    out.count("registry_changes_under_load", changes);
+    out.nontrivial = Some(hash_of(&("concurrent", round, tcp)));
+    if !tcp {
+        datacake_rpc::verif::unregister(addr);
+    } else if let Ok(server) = Arc::try_unwrap(server) {
+        server.shutdown();
+    }
+    if !out.violations.is_empty() {
+        out.replay = Some(json!({"mode": "concurrent", "seed": seed, "round": round}));
+    }
+    out
+}
+
 pub fn free_tcp_addr() -> SocketAddr {
     let l = std::net::TcpListener::bind("127.0.0.1:0").unwrap();
     l.local_addr().unwrap()
@@ -301,7 +411,7 @@ pub fn c13(args: &Args) {
     let mut report = Report::new(
         args,
         "E3-registry",
-        "services A,B (message M1), C (M1,M2), D (M2) and two instantiations Gen<Alpha>, Gen<Beta> of one generic service (M1; names differing only inside <...>) on one real Server: every history of <= 5 actions out of {add X, remove X} over A-D (8 actions incl. double add, double remove, remove-unknown; 37 448 histories) over {A, Gen<Alpha>, Gen<Beta>} (6 actions; 9 330 histories) and over {A, P1, P2, P3} where P1 (M1), P2 (M2), P3 (M1,M2) are three service TYPES registered under ONE service name (7 actions; 19 607 histories; the model keeps handlers per name: adds accumulate, a later add of the same message replaces the handler, removing the name removes them all) executed on the in-memory transport (same ServerState / handler dispatch code as TCP), and over four services whose short names are collision pairs of weak string hashes ('Aa'/'BB' under h*31+c, 'ab'/'ba' under order-insensitive sums; 8 actions, 37 448 histories) executed likewise; after EVERY step all 13 (service name,message) pairs are called through real RpcClients: Ok with that service's tag iff the service is in the registered-names model, else ServiceUnavailable. A seeded sample of histories is repeated on a real loopback TCP server. Non-trivial = history contains a removal; distinct = distinct histories.",
+        "services A,B (message M1), C (M1,M2), D (M2) and two instantiations Gen<Alpha>, Gen<Beta> of one generic service (M1; names differing only inside <...>) on one real Server: every history of <= 5 actions out of {add X, remove X} over A-D (8 actions incl. double add, double remove, remove-unknown; 37 448 histories) over {A, Gen<Alpha>, Gen<Beta>} (6 actions; 9 330 histories) and over {A, P1, P2, P3} where P1 (M1), P2 (M2), P3 (M1,M2) are three service TYPES registered under ONE service name (7 actions; 19 607 histories; the model keeps handlers per name: adds accumulate, a later add of the same message replaces the handler, removing the name removes them all) executed on the in-memory transport (same ServerState / handler dispatch code as TCP), and over four services whose short names are collision pairs of weak string hashes ('Aa'/'BB' under h*31+c, 'ab'/'ba' under order-insensitive sums; 8 actions, 37 448 histories) executed likewise; after EVERY step all 13 (service name,message) pairs are called through real RpcClients: Ok with that service's tag iff the service is in the registered-names model, else ServiceUnavailable. A seeded sample of histories is repeated on a real loopback TCP server. Concurrency: on a multi-thread runtime three clients keep calling a service that stays registered while another thread adds and removes two other services (one of them slow to drop) 80..480 times: no request may be refused or misrouted. Non-trivial = history contains a removal; distinct = distinct histories.",
     );
     if let Some(path) = &args.replay {
         let r = read_replay(path);
@@ -450,6 +560,20 @@ pub fn c13(args: &Args) {
     for o in tcp_out {
         report.absorb(o);
     }
+    // requests racing registry changes on other threads
+    let n_conc = args.pick(24, 400);
+    let conc = block_on_real(6, async move {
+        let mut outs = Vec::new();
+        for r in 0..n_conc {
+            outs.push(c13_concurrent(seed, r, r % 4 == 3).await);
+        }
+        outs
+    });
+    for o in conc {
+        report.absorb(o);
+    }
+    report.floor("requests_during_registry_changes", 5_000);
+    report.floor("registry_changes_under_load", 1_000);
     report.floor("probe_calls", 100_000);
     report.floor("histories_over_tcp", 50);
     report.finish(args);
@@ -1392,6 +1516,8 @@ pub struct Tagged {
     pub id: u64,
     pub delay_us: u32,
     pub len: u32,
+    /// the handler answers with Err(Status::internal(tag_error_message(id, len))) instead of a reply
+    pub fail: bool,
 }
 
 #[repr(C)]
@@ -1412,6 +1538,10 @@ impl RpcService for TagSvc {
     }
 }
 
+fn tag_error_message(id: u64, len: u32) -> String {
+    (0..len).map(|i| (b'a' + ((id as u32).wrapping_mul(31).wrapping_add(i) % 26) as u8) as char).collect()
+}
+
 fn tag_payload(id: u64, len: u32) -> Vec<u8> {
     (0..len).map(|i| (id as u32).wrapping_mul(2_654_435_761).wrapping_add(i) as u8).collect()
 }
@@ -1424,6 +1554,9 @@ impl Handler<Tagged> for TagSvc {
         *self.calls.lock().entry(id).or_insert(0) += 1;
         if d > 0 {
             tokio::time::sleep(Duration::from_micros(d as u64)).await;
+        }
+        if m.fail {
+            return Err(Status::internal(tag_error_message(id, l)));
         }
         Ok(TaggedReply { id, payload: tag_payload(id, l) })
     }
@@ -1463,7 +1596,7 @@ pub fn c14_tcp(args: &Args) {
                 let client = RpcClient::<TagSvc>::new(channels[rng.gen_range(0..channels.len())].clone());
                 let (d, l) = (rng.gen_range(0..3_000u32), *[0u32, 1, 16, 100, 4_096, 65_536].choose(&mut rng).unwrap());
                 hs.push(tokio::spawn(async move {
-                    let r = client.send(&Tagged { id, delay_us: d, len: l }).await;
+                    let r = client.send(&Tagged { id, delay_us: d, len: l, fail: false }).await;
                     (id, l, r.map(|v| (v.id.value(), v.payload.as_slice() == tag_payload(id, l).as_slice())).map_err(|e| format!("{:?}", e.code)))
                 }));
             }
@@ -1587,7 +1720,7 @@ pub fn c14_tcp_faults(args: &Args) {
     let mut report = Report::new(
         args,
         "E3-wire-faults",
-        "the production connector under connection faults: a real Server on loopback behind a TCP forwarder owned by the monitor; clients (two Channels, clones of a client with a 250 ms timeout) issue batches of 4..40 concurrent requests with unique ids (handler latency 0-25 ms, replies 0 B..64 KiB) while a seeded nemesis cuts every live connection (FIN or RST) 0-30 ms into the batch, or stalls forwarding for 20-600 ms, or does nothing. Per request: Ok => the reply carries this request's id and the payload the handler computed for it and the handler ran exactly once; Err => the code is ConnectionError or Timeout; in every case the handler ran AT MOST once (no hidden re-send of a request whose reply was lost); a call that takes > 5 s although the timeout is 250 ms is a missed timeout (generous bound, real time). Observed: requests executed whose reply was lost (error returned although the handler ran). Non-trivial: batches in which the nemesis acted; distinct = distinct (batch, action) pairs.",
+        "the production connector under connection faults: a real Server on loopback behind a TCP forwarder owned by the monitor; clients (two Channels, clones of a client with a 250 ms timeout) issue batches of 4..40 concurrent requests with unique ids (handler latency 0-25 ms, replies 0 B..64 KiB; one request in five is answered with a handler error whose message is 0 B..200 kB long and must arrive as that very error) while a seeded nemesis cuts every live connection (FIN or RST) 0-30 ms into the batch, or stalls forwarding for 20-600 ms, or does nothing. Per request: Ok => the reply carries this request's id and the payload the handler computed for it and the handler ran exactly once; Err => the code is ConnectionError or Timeout; in every case the handler ran AT MOST once (no hidden re-send of a request whose reply was lost); a call that takes > 5 s although the timeout is 250 ms is a missed timeout (generous bound, real time). Observed: requests executed whose reply was lost (error returned although the handler ran). Non-trivial: batches in which the nemesis acted; distinct = distinct (batch, action) pairs.",
     );
     let seed = args.seed;
     let batches = args.pick(260, 12_000);
@@ -1636,6 +1769,7 @@ pub fn c14_tcp_faults(args: &Args) {
         let channels: Vec<Channel> = (0..2).map(|_| Channel::connect(paddr)).collect();
         let timeout = Duration::from_millis(250);
         let mut next_id = 1u64;
+        let mut prev_action = 0u8;
         let started = std::time::Instant::now();
         for b in 0..batches {
             if started.elapsed() > budget {
@@ -1670,11 +1804,22 @@ pub fn c14_tcp_faults(args: &Args) {
                     l = *[65_536u32, 200_000, 400_000].choose(&mut rng).unwrap();
                 }
                 let jitter = Duration::from_micros(rng.gen_range(0..20_000));
+                // one request in five is answered with a handler ERROR carrying a message of that length
+                let fail = rng.gen_bool(0.2);
+                if fail && l < 4_096 && rng.gen_bool(0.5) {
+                    l = 200_000;
+                }
                 hs.push(tokio::spawn(async move {
                     tokio::time::sleep(jitter).await;
                     let t0 = std::time::Instant::now();
-                    let r = client.send(&Tagged { id, delay_us: d, len: l }).await;
-                    (id, l, t0.elapsed(), r.map(|v| (v.id.value(), v.payload.as_slice() == tag_payload(id, l).as_slice())).map_err(|e| e.code))
+                    let r = client.send(&Tagged { id, delay_us: d, len: l, fail }).await;
+                    // a handler error must arrive as that very error (code + message); anything else the
+                    // client reports in its place has to be a connection or timeout error
+                    let r = match r {
+                        Err(e) if fail && e.code == ErrorCode::InternalError && e.message == tag_error_message(id, l) => Ok((id, true)),
+                        other => other.map(|v| (v.id.value(), v.payload.as_slice() == tag_payload(id, l).as_slice())).map_err(|e| e.code),
+                    };
+                    (id, l, t0.elapsed(), r)
                 }));
             }
             let ctl2 = ctl.clone();
@@ -1753,8 +1898,15 @@ pub fn c14_tcp_faults(args: &Args) {
                                 json!({"request": id, "batch": b, "action": action, "handler_invocations": ran}),
                             ),
                         }
+                        // a failure in a batch without a fault is judged only if the batch before it had none
+                        // either (a connection cut a moment ago may still sit in the client's pool) and only if
+                        // it is not a timeout (250 ms of real time can be lost to scheduling on a loaded machine)
                         if action == 0 {
-                            out.violate("C14:fault-free-request-failed:real-tcp", json!({"request": id, "code": format!("{code:?}"), "batch": b}));
+                            if prev_action == 0 && code != ErrorCode::Timeout {
+                                out.violate("C14:fault-free-request-failed:real-tcp", json!({"request": id, "code": format!("{code:?}"), "batch": b}));
+                            } else {
+                                out.count("failures_in_fault_free_batches_not_judged", 1);
+                            }
                         }
                     },
                 }
@@ -1774,6 +1926,7 @@ pub fn c14_tcp_faults(args: &Args) {
             }
             drop(c);
             let _ = first;
+            prev_action = action;
             if b == 0 {
                 out.sample = Some(json!({"batch": 0, "concurrent_requests": n, "action": action, "at_us": at.as_micros() as u64}));
             }
